@@ -124,6 +124,20 @@ func (a *HMACAuth) Verify(r *http.Request, requestPath string, body []byte) erro
 	return ErrUnauthorized
 }
 
+// InheritReplayState lets a take over the nonce cache of prev, the authenticator
+// it replaces on a config reload, so that nonces honoured before the reload stay
+// rejected afterwards. If the tolerance grew, remembered nonces are kept longer
+// by the difference.
+func (a *HMACAuth) InheritReplayState(prev *HMACAuth) {
+	if a == nil || prev == nil || prev.nonce == nil {
+		return
+	}
+	if a.Tolerance > prev.Tolerance {
+		prev.nonce.extend(a.Tolerance - prev.Tolerance)
+	}
+	a.nonce = prev.nonce
+}
+
 func cloneByteSlices(in [][]byte) [][]byte {
 	out := make([][]byte, 0, len(in))
 	for _, b := range in {
@@ -160,6 +174,14 @@ func (c *nonceCache) setNow(now func() time.Time) {
 	c.mu.Lock()
 	c.now = now
 	c.mu.Unlock()
+}
+
+func (c *nonceCache) extend(by time.Duration) {
+	c.mu.Lock()
+	defer c.mu.Unlock()
+	for k, exp := range c.m {
+		c.m[k] = exp.Add(by)
+	}
 }
 
 func (c *nonceCache) seenOnce(nonce string, expiresAt time.Time) bool {
